@@ -81,6 +81,24 @@ func (a *absint) linOfAt(t Term, depth int, at ssa.Instruction) linForm {
 		} else if ms, ok := stripIface(a.w.resolveLoad(t.V)).(*ssa.MakeSlice); ok && depth > 0 {
 			return a.linOfAt(termOf(ms.Cap), depth-1, at)
 		}
+		// len(append(x, y...)) = len(x) + len(y)
+		if !t.Cap && depth > 0 {
+			if ac, ok := stripIface(a.w.resolveLoad(t.V)).(*ssa.Call); ok {
+				if b, isB := ac.Call.Value.(*ssa.Builtin); isB && b.Name() == "append" && len(ac.Call.Args) == 2 {
+					if _, isSl := ac.Call.Args[1].Type().Underlying().(*types.Slice); isSl {
+						return a.linOfAt(Term{V: ac.Call.Args[0], Len: true}, depth-1, at).addScaled(a.linOfAt(Term{V: ac.Call.Args[1], Len: true}, depth-1, at), 1)
+					}
+				}
+				// a module helper whose result length equals one of its arguments
+				if h := ac.Call.StaticCallee(); h != nil && a.w.IsMod[h] {
+					if cd, ok := a.lenPost(h, 0); ok {
+						if j := paramIndex(cd.p); j >= 0 && j < len(ac.Call.Args) {
+							return a.linOfAt(Term{V: ac.Call.Args[j], Len: cd.len}, depth-1, at)
+						}
+					}
+				}
+			}
+		}
 		return a.linAtom(t)
 	}
 	v := stripIntConv(t.V)
@@ -113,6 +131,31 @@ func (a *absint) linOfAt(t Term, depth int, at ssa.Instruction) linForm {
 			if k, isK := constInt(bo.X); isK && k > -1024 && k < 1024 {
 				return newLin().addScaled(a.linOfAt(termOf(bo.Y), depth-1, at), k)
 			}
+		}
+	}
+	// a pure expression helper (nonceLen() = 4 + s.hmacLen): its body over this call's
+	// arguments; reads of fields that are only ever written while their object is being
+	// constructed denote one value wherever they are made
+	if call, ok := v.(*ssa.Call); ok && isIntType(call.Type()) {
+		if h := call.Call.StaticCallee(); h != nil && a.w.IsMod[h] {
+			if rv := a.w.pureExprResult(h); rv != nil {
+				tv := a.w.translate(rv, h, call)
+				if _, isV := tv.(*virtVal); !isV || a.w.immutableFieldLoad(under(tv)) {
+					return a.linOfAt(termOf(tv), depth-1, at)
+				}
+				if vv, isV := tv.(*virtVal); isV {
+					_ = vv
+				}
+			}
+		}
+	}
+	if bo, ok := v.(*ssa.BinOp); ok && a.w.isSynthetic(bo) && isIntType(bo.Type()) && !sizedInt(bo.Type()) {
+		// synthetic arithmetic from a translated helper body (plain int): decompose
+		switch bo.Op {
+		case token.ADD:
+			return a.linOfAt(termOf(bo.X), depth-1, at).addScaled(a.linOfAt(termOf(bo.Y), depth-1, at), 1)
+		case token.SUB:
+			return a.linOfAt(termOf(bo.X), depth-1, at).addScaled(a.linOfAt(termOf(bo.Y), depth-1, at), -1)
 		}
 	}
 	// a value loaded from a private single-store local is that value
@@ -188,7 +231,7 @@ func (a *absint) proveLinear(x, y Term, at ssa.Instruction, need int64) (bool, s
 	}
 	a.linBusy = true
 	defer func() { a.linBusy = false }()
-	lx, ly := a.linOfAt(x, 4, at), a.linOfAt(y, 4, at)
+	lx, ly := a.linOfAt(x, 10, at), a.linOfAt(y, 10, at)
 	if !lx.ok || !ly.ok {
 		return false, ""
 	}
@@ -228,7 +271,7 @@ func (a *absint) proveLinear(x, y Term, at ssa.Instruction, need int64) (bool, s
 				}
 				lo, hi = hi, lo
 			}
-			g := a.linOfAt(hi, 4, at).addScaled(a.linOfAt(lo, 4, at), -1) // g ≥ slack
+			g := a.linOfAt(hi, 10, at).addScaled(a.linOfAt(lo, 10, at), -1) // g ≥ slack
 			if !g.ok || len(g.coef) == 0 || !a.linSmall(g, at) {
 				continue
 			}
